@@ -226,3 +226,5 @@ TRUSTED = ["third-party parsers terminate (their exceptions are covered by EXC-A
 ASSUMED_MODELS = ["time.perf_counter/time.time: total, return a float"]
 ASSUMPTIONS = ["EXC-ANY: un-contracted calls may raise any Exception subclass (BaseException-only classes such as KeyboardInterrupt, and MemoryError/RecursionError from resource exhaustion, are not modelled: PY-MEM)",
                "PY-GEN: generator consumer may stop after any prefix", "logger calls dropped (PY-LOG)"]
+
+REPLAY_UNKNOWN = True    # undecided / out-of-subset items are searched natively (replay) before being reported UNDECIDED
